@@ -115,7 +115,10 @@ def step (line : String) : String :=
       | some cfg, some seed, some mu, some rgs =>
         let ccs := lcgChoices (seed + 7919) 4000
         let compress : Nat → Bytes → Bytes := fun c b => if c = 1 then snappyEncode ccs b else if c = 2 then gzipStored ccs b else b
-        let (file, lg) := specWriteLog cfg compress mu (lcgChoices seed 6000) rgs
+        -- flag `B`: a choice stream that makes every level stream one big bit-packed run (≥ 256 bytes
+        -- for long pages), flag `R`: prefers RLE runs of length 1
+        let choices := if flags.contains 'B' then List.replicate 6000 15 else if flags.contains 'R' then List.replicate 6000 0 else lcgChoices seed 6000
+        let (file, lg) := specWriteLog cfg compress mu choices rgs
         let tab := (lg.filter (·.1 ≠ 0)).map fun (c, raw) => toHex (compress c raw) ++ "=" ++ toHex raw
         toHex file ++ " " ++ (if tab.isEmpty then "-" else ",".intercalate tab.eraseDups)
       | _, _, _, _ => "bad-op"
